@@ -211,7 +211,7 @@ def relevant_failures(prop, h, fails):
         keep = []
         for c in fails:
             cls = xrun.classify_check(c) if "category" in c and c["category"] != "oob" else "oob"
-            if cls in ("safe_overflow", "safe_panic", "oob", "other", "unwind"):
+            if cls in ("safe_overflow", "safe_panic", "oob", "other", "unwind", "ens_inv"):
                 keep.append(c)
         return keep
     return fails
